@@ -72,9 +72,14 @@ def r_star_table(ctx: Ctx, rule: str) -> None:
     pf, pa, ps = params[0], params[1], params[2]
     for k in (0, 1, 2):
         shapes = set()
+        reached = set()
+        ucalls = set()
 
-        def on_node(ai, node, env, shapes=shapes):
+        def on_node(ai, node, env, shapes=shapes, reached=reached, ucalls=ucalls):
+            if node.func is sf or node.root is sf:
+                reached.add(node)
             if node.func is sf and node.op == "call" and node.callee is not None and node.callee.kind == "user":
+                ucalls.add(node)
                 c = node.ast
                 if len(c.args) == 1 and not c.keywords and isinstance(c.args[0], ast.Name) and c.args[0].id == pa:
                     shapes.add(0)
@@ -89,6 +94,17 @@ def r_star_table(ctx: Ctx, rule: str) -> None:
         form = {0: "function(arg)", 1: "function(*arg)", 2: "function(**arg)"}[k]
         rep.ob(rule, f"star_function with arg_stars={k} calls {form} and nothing else", shapes == {k}, func=sf, construct=f"arg_stars={k}",
                detail=f"reachable call shapes {sorted(map(str, shapes))}")
+        # ... for every element: no path for this arg_stars raises on its own account or returns without having made the call
+        # (an element that star_function refuses is logged and skipped by the consumer although func(x) would not have raised)
+        own_raises = [n for n in reached if n.op == "raise"]
+        rep.ob(rule, f"star_function with arg_stars={k} raises nothing of its own: only the call {form} can fail", not own_raises, func=sf,
+               construct=own_raises[0] if own_raises else f"arg_stars={k}: no raise statement reachable",
+               detail="" if not own_raises else f"`{own_raises[0].text(70)}` is reachable with arg_stars={k}: the element is rejected before the function is even called")
+        from ..queries import reach as _reach
+        gsf = ctx.an.cfg(sf)
+        skipping = gsf.exit in _reach([gsf.entry], lambda a, b, l: b in reached and l[0] in ("n", "T", "F"), avoid=ucalls) if gsf.entry in reached else False
+        rep.ob(rule, f"star_function with arg_stars={k} never returns without having called the function", not skipping, func=sf,
+               construct=f"arg_stars={k}: exit only through the call")
     # default of star_function is irrelevant as long as the consumer passes arg_stars explicitly
     for f in ctx.pool_funcs("_arg_consumer"):
         calls = ctx.distinct_sites(ctx.nodes(f, lambda n: ctx.is_call_to(n, "star_function")))
